@@ -103,6 +103,25 @@ def changeset_libcst(kind: int, dry_run: bool, r1: bool, c1: bool, a1: bool, r2:
     return fin(o.exc is None and _cs_invariants(o, n_after) and not (o.failures and fp.writes))
 
 
+def changeset_libcst_unwritable(dry_run: bool, c1: bool, a1: bool, c2: bool, a2: bool) -> bool:
+    """LibcstTransformerPipeline.apply on a file that can be read but not written (read-only bits, immutable flag):
+    either the failure escapes (the run aborts: no report, vacuous) or what is reported is consistent - a ChangeSet
+    only for a file that was really written, and never for a file that is also listed as failed.
+    post: _
+    """
+    from vlib.stubs import FakePath
+
+    fp = FakePath(skel.SRC_TEXT.encode(), unwritable=True)
+    fp, fc, o = skel.run_libcst(0, dry_run, (False, c1, a1), (False, c2, a2), 1, fp=fp)
+    if o.exc is not None:
+        return fin(True)
+    reported_change = o.cs is not None
+    ok = not (reported_change and o.failures)
+    if not dry_run:
+        ok = ok and (not reported_change or bool(fp.writes))
+    return fin(ok)
+
+
 def changeset_regex_xml(which: int, dry_run: bool, hit: bool, sast: bool, nf: int, line: int) -> bool:
     """Regex / SastRegex / XML pipelines: ChangeSet invariants.
     pre: 0 <= which <= 1 and 0 <= nf <= 1 and 1 <= line <= 3
@@ -171,6 +190,7 @@ def warmup():
     compile_results_shape(True, False, True, 1, 2, 2, True, True)
     compile_results_shape(True, True, True, 1, 0, 0, False, False)
     changeset_libcst(0, False, False, True, True, False, True, True)
+    changeset_libcst_unwritable(False, True, True, False, False)
     changeset_regex_xml(0, False, True, True, 1, 2)
     changeset_regex_xml(1, True, True, False, 1, 2)
     for k in range(4):
@@ -209,6 +229,7 @@ SPEC = {
     "xh": [
         Xh("compile_results_shape", 300, 600),
         Xh("changeset_libcst", 150, 300),
+        Xh("changeset_libcst_unwritable", 100, 200),
         Xh("changeset_regex_xml", 150, 300),
         Xh("writer_change_lines", 150, 300),
         Xh("report_in_execution_order", 200, 400),
